@@ -27,6 +27,8 @@ AlphaTwsFull == {"init", "initbad", "start", "stop", "ping", "pong", "invalid", 
 AlphaOps == {"start", "stop", "term", "abort"}
 AlphaOpsS == {"start", "stop"}
 AlphaStart == {"start"}
+AlphaStall == {"start", "stop", "term"}
+AlphaStallT == {"start", "stop"}
 AlphaTwsOps == {"start", "stop", "ping", "pong", "abort"}
 KindsAll == {"end", "suberr", "panic"}
 KindsEnd == {"end"}
